@@ -94,5 +94,12 @@ check("C14", "exploration",
       "engines are probed for every name on the acting and a random thread against a per-engine, per-thread dictionary model; ASan on.",
       "Trusted: the dictionary model; operations are sequential across threads (concurrency is C13).",
       "model-checked histories over multiple engine instances and threads, under ASan", "DESIGN.md section 5 C14")
+check("C15", "exploration",
+      "700/100k histories of 6-29 steps on one engine - definitions of functions with typed/untyped overloads, globals, classes, C++ functions "
+      "and types, use(file), thread-local variables, get_state, set_state(any earlier snapshot), re-adding names after a restore - each followed "
+      "by a final pass that restores every snapshot again; after every step existence and call results of every function/overload, globals, "
+      "classes, type names, function_exists, the used-file evaluation counter and the thread's locals are probed against a dictionary model.",
+      "Trusted: the dictionary model of the global environment (bindings, not values of shared global objects).",
+      "model-checked operation histories with full-environment probes after every step, under ASan", "DESIGN.md section 5 C15")
 for _p in ["C%02d" % i for i in range(2, 21) if "C%02d" % i not in CHECKS]:
     NA[_p] = "check not implemented yet in this revision (work in progress, see DESIGN.md); nothing is claimed"
